@@ -128,14 +128,14 @@ class VersionsProfile(StoreProfile):
             sid = "/".join(vs)
         if r < 0.45:
             return {"op": "publish", "sid": sid}
-        return {"op": "ask", "sid": sid, "what": rng.choice(["get_last", "get_next", "get_new"])}
+        return {"op": "ask", "sid": sid, "what": rng.choice(["get_last", "get_next", "get_new"]), "kw": rng.random() < 0.4}
 
     # ------------------------------------------------------------------ execution
     def apply(self, run, step):
         if self.apply_common(run, step):
             return
         if step["op"] == "ask":
-            self.check_ask(run, step["sid"], step["what"])
+            self.check_ask(run, step["sid"], step["what"], kw=bool(step.get("kw")))
         elif step["op"] == "publish":
             self.publish(run, step["sid"])
         else:
@@ -149,10 +149,11 @@ class VersionsProfile(StoreProfile):
         run.check(res[: len(base)] == base and len(g) == max(len(segs), i + 1), "C18.other_fields_changed",
                   {"call": what, "sid": sid, "got": got.uri})
 
-    def check_ask(self, run, sid, what):
+    def check_ask(self, run, sid, what, kw=False):
         m = run.m
         run.stats["version_cases"] += 1
-        obs = run.do(X.meth(X.sid(sid), what, VERSION_KEY))
+        # the key given positionally or by keyword (both are the documented signature)
+        obs = run.do(X.meth(X.sid(sid), what, key=VERSION_KEY) if kw else X.meth(X.sid(sid), what, VERSION_KEY))
         run.check(isinstance(obs, dict) and "~S" in obs, "C18.raises_or_not_a_sid", {"call": what, "sid": sid, "got": obs})
         got = X.SidObs(obs)
         # never an invalid (untyped, non-empty) Sid
